@@ -607,6 +607,15 @@ def e2e_spec(rng):
         spec["relations"].append({"source": s, "target": t, "parameter": new_param(rng.choice([2.0, 0.5, 3.0, -1.0])),
                                   "interval": rand_ivs(rng, gc)})
     free = [l for l in labels if l != rel_target]
+    if rel_target is not None and len(gpts) >= 2 and rng.random() < 0.35:
+        # a relation and a constraint on the *same* clp with disjoint intervals (they never apply at the same index, so
+        # the statement is unambiguous): the relation on the lower part of the axis — including its first point —, the
+        # constraint on the upper part (seeded change C08-2: constraints pre-filtered by the labels left at the first index)
+        k = rng.randint(1, len(gpts) - 1)
+        rel = spec["relations"][-1]
+        rel["interval"] = [rng.choice([-INF, gpts[0]]), gpts[k - 1]]
+        who = rel["target"] if rng.random() < 0.7 else rel["source"]
+        spec["constraints"].append({"type": "zero", "target": who, "interval": [gpts[k], rng.choice([INF, gpts[-1]])]})
     for _ in range(rng.choice([0, 1, 1, 2])):
         if len(free) < 2:
             break
